@@ -21,6 +21,13 @@ pub enum F {
     Threshold(u8),
     /// the library's ThresholdFilter itself, unwrapped (its consultations are not observable, its verdicts are)
     RealThreshold(u8),
+    /// answers by what the record SAYS: Reject / Neutral / Accept for message number (n + k) mod 3 = 0 / 1 / 2 - records
+    /// from one call site with one level do not share a verdict
+    ByMessage(u8),
+}
+
+fn by_message(k: u8, ri: usize) -> F {
+    [F::Reject, F::Neutral, F::Accept][(ri + k as usize) % 3].clone()
 }
 
 #[derive(Serialize, Deserialize, Debug, Clone)]
@@ -36,6 +43,9 @@ pub struct App {
     /// filter chain is all that decides delivery
     #[serde(default)]
     pub foreign_log: bool,
+    /// what it fails with, if it fails (index into the kinds of `failure`)
+    #[serde(default)]
+    pub err_kind: u8,
 }
 
 /// `log::Log` on top of the recording appender; `enabled()` is deliberately stricter than `log()`.
@@ -89,9 +99,13 @@ struct SF {
     logs: Arc<Mutex<Logs>>,
 }
 impl Filter for SF {
-    fn filter(&self, _r: &log::Record) -> Response {
+    fn filter(&self, r: &log::Record) -> Response {
         self.logs.lock().unwrap().consults.push((self.app, self.idx));
-        match self.resp {
+        let resp = match &self.resp {
+            F::ByMessage(k) => by_message(*k, r.args().to_string().parse::<usize>().unwrap_or(0)),
+            other => other.clone(),
+        };
+        match resp {
             F::Accept => Response::Accept,
             F::Neutral => Response::Neutral,
             _ => Response::Reject,
@@ -119,7 +133,25 @@ struct FA {
     app: usize,
     fails: bool,
     io: bool,
+    /// what a failing appender fails with (see `failure`)
+    kind: u8,
     logs: Arc<Mutex<Logs>>,
+}
+
+/// The error of failing appender `app` for the record whose message is `msg`: a plain tagged error, or an I/O error of
+/// some kind (a reader that hung up, an interrupted call, ...), bare or wrapped in context - an error is an error.
+fn failure(kind: u8, app: usize, msg: &str) -> anyhow::Error {
+    use std::io::{Error, ErrorKind};
+    match kind % 8 {
+        0 => anyhow::anyhow!("tag-{}-{}", app, msg),
+        1 => anyhow::Error::from(Error::from_raw_os_error(32)).context(format!("tag-{}-{}", app, msg)),
+        2 => anyhow::Error::from(Error::new(ErrorKind::BrokenPipe, format!("tag-{}-{}", app, msg))),
+        3 => anyhow::Error::from(Error::new(ErrorKind::Interrupted, format!("tag-{}-{}", app, msg))),
+        4 => anyhow::Error::from(Error::new(ErrorKind::WouldBlock, format!("tag-{}-{}", app, msg))),
+        5 => anyhow::Error::from(Error::new(ErrorKind::NotFound, format!("tag-{}-{}", app, msg))).context(format!("tag-{}-{}", app, msg)),
+        6 => anyhow::Error::from(Error::new(ErrorKind::UnexpectedEof, format!("tag-{}-{}", app, msg))),
+        _ => anyhow::Error::from(Error::new(ErrorKind::Other, format!("tag-{}-{}", app, msg))),
+    }
 }
 impl Append for FA {
     fn append(&self, r: &log::Record) -> anyhow::Result<()> {
@@ -127,7 +159,7 @@ impl Append for FA {
         if self.fails && self.io {
             Err(anyhow::Error::from(std::io::Error::from_raw_os_error(28)))
         } else if self.fails {
-            Err(anyhow::anyhow!("tag-{}-{}", self.app, r.args()))
+            Err(failure(self.kind, self.app, &r.args().to_string()))
         } else {
             Ok(())
         }
@@ -135,8 +167,9 @@ impl Append for FA {
     fn flush(&self) {}
 }
 
-fn response(f: &F, level: log::Level) -> F {
+fn response(f: &F, level: log::Level, ri: usize) -> F {
     match f {
+        F::ByMessage(k) => by_message(*k, ri),
         // the threshold filter rejects exactly the records more verbose than its level
         F::Threshold(i) | F::RealThreshold(i) => {
             if level > LEVEL_FILTERS[*i as usize % 6] {
@@ -170,7 +203,7 @@ pub fn check(case: &Case, obs: &mut Obs) -> CaseResult {
         for (mut run, single) in crate::glue::runs_by_style(boxed, case.style.rotate_left(ai as u32 * 7)) {
             ab = if single { ab.filter(run.pop().unwrap()) } else { ab.filters(run) };
         }
-        let fa = FA { app: ai, fails: a.fails && !a.nested && !a.foreign_log, io: case.same_io_error, logs: logs.clone() };
+        let fa = FA { app: ai, fails: a.fails && !a.nested && !a.foreign_log, io: case.same_io_error, kind: a.err_kind, logs: logs.clone() };
         let appender: Box<dyn Append> = if a.foreign_log && !a.nested {
             Box::new(ForeignLog(fa))
         } else if a.nested {
@@ -187,7 +220,7 @@ pub fn check(case: &Case, obs: &mut Obs) -> CaseResult {
     if case.handler_panicked_before {
         let probe_logs = Arc::new(Mutex::new(Logs::default()));
         let cfg = Config::builder()
-            .appender(Appender::builder().build("failing", Box::new(FA { app: 0, fails: true, io: false, logs: probe_logs.clone() })))
+            .appender(Appender::builder().build("failing", Box::new(FA { app: 0, fails: true, io: false, kind: 0, logs: probe_logs.clone() })))
             .build(Root::builder().appender("failing").build(log::LevelFilter::Trace))
             .unwrap();
         let other = log4rs::Logger::new_with_err_handler(cfg, Box::new(|_e: &anyhow::Error| panic!("error handler panics")));
@@ -236,7 +269,7 @@ pub fn check(case: &Case, obs: &mut Obs) -> CaseResult {
                 if !matches!(f, F::RealThreshold(_)) {
                     exp_consults.push((ai, fi));
                 }
-                match response(f, level) {
+                match response(f, level, ri) {
                     F::Accept => break,
                     F::Reject => {
                         delivered = false;
@@ -318,13 +351,14 @@ fn filter_strategy() -> impl Strategy<Value = F> {
         2 => Just(F::Reject),
         2 => (0u8..6).prop_map(F::Threshold),
         2 => (0u8..6).prop_map(F::RealThreshold),
+        2 => (0u8..3).prop_map(F::ByMessage),
     ]
 }
 
 pub fn strategy() -> impl Strategy<Value = Case> {
     (
         prop_oneof![3 => Just(5u8), 1 => 0u8..6],
-        prop::collection::vec((prop::collection::vec(filter_strategy(), 0..=5), prop::bool::weighted(0.35), prop::bool::weighted(0.2), prop::bool::weighted(0.15)).prop_map(|(chain, fails, nested, foreign_log)| App { chain, fails, nested, foreign_log }), 1..=4),
+        prop::collection::vec((prop::collection::vec(filter_strategy(), 0..=5), prop::bool::weighted(0.35), prop::bool::weighted(0.2), prop::bool::weighted(0.15), 0u8..8).prop_map(|(chain, fails, nested, foreign_log, err_kind)| App { chain, fails, nested, foreign_log, err_kind }), 1..=4),
         prop::collection::vec(0u8..5, 1..=5),
         any::<u64>(),
         (prop::bool::weighted(0.15), prop::bool::weighted(0.3), prop::bool::weighted(0.15)),
@@ -373,8 +407,8 @@ fn sweep(run: &Run) {
         for fails in [false, true] {
             for pos in [0usize, 1] {
                 for companion_fails in [false, true] {
-                    let studied = App { chain: chain.clone(), fails, nested: false, foreign_log: false };
-                    let companion = App { chain: vec![], fails: companion_fails, nested: !companion_fails && chain.len() % 2 == 1, foreign_log: !companion_fails && chain.len() % 3 == 2 };
+                    let studied = App { chain: chain.clone(), fails, nested: false, foreign_log: false, err_kind: (chain.len() % 8) as u8 };
+                    let companion = App { chain: vec![], fails: companion_fails, nested: !companion_fails && chain.len() % 2 == 1, foreign_log: !companion_fails && chain.len() % 3 == 2, err_kind: 2 };
                     let apps = if pos == 0 { vec![studied, companion] } else { vec![companion, studied] };
                     ok &= run.eval_one("chains-exhaustive", &Case { root_level: 5, style: fnv64(format!("{:?}", apps).as_bytes()), apps, records: vec![2], handler_panicked_before: false, same_io_error: false, handler_panics: false }, &check);
                 }
@@ -408,7 +442,7 @@ pub fn replay(part: &str, case: serde_json::Value) -> Option<CaseResult> {
 pub fn meta() -> EvidenceMeta {
     EvidenceMeta {
         level: "exploration",
-        rule: "cases = 1-4 appenders on the root, each with a chain of 0-5 filters (scripted Accept/Neutral/Reject that log their consultation, real ThresholdFilters at generated levels wrapped to observe the consultation) and a scripted outcome (Ok / Err(tag)), root level generated, 1-5 records at generated levels; plus exhaustive sweeps (121 chains <= 4 x failing/healthy x position x companion; threshold truth table). Oracle per appender independently: filters consulted = chain prefix up to and including the first non-Neutral answer, delivered iff that answer is Accept or none exists, another appender's rejection/error never changes this, error handler receives exactly the tags of failing delivered appenders once each; no consultation for records the logger does not admit. An appender may be a whole nested log4rs::Logger, or a foreign log::Log whose enabled() refuses everything while its log() records (attachment and chain alone decide delivery). In 15% of the cases the error handler panics after recording the error: every appender whose chain delivers has been served all the same. Chains may hold the library's ThresholdFilter unwrapped; in 30% of the cases every failing appender fails with the very same std::io::Error. Filters and appender references are attached through a mix of singular and bulk builder calls; in 15% of the cases the error handler of another logger panicked earlier on the thread (caught). non-trivial = >=2 appenders with different verdicts, or a failing appender before a healthy one, or an Accept before a Reject in one chain".into(),
+        rule: "cases = 1-4 appenders on the root, each with a chain of 0-5 filters (scripted Accept/Neutral/Reject that log their consultation, real ThresholdFilters at generated levels wrapped to observe the consultation) and a scripted outcome (Ok / Err(tag)), root level generated, 1-5 records at generated levels; plus exhaustive sweeps (121 chains <= 4 x failing/healthy x position x companion; threshold truth table). Oracle per appender independently: filters consulted = chain prefix up to and including the first non-Neutral answer, delivered iff that answer is Accept or none exists, another appender's rejection/error never changes this, error handler receives exactly the tags of failing delivered appenders once each; no consultation for records the logger does not admit. Filters may answer by what the record says (message-dependent Accept/Neutral/Reject: records from one call site with one level do not share a verdict); failing appenders fail with plain errors or I/O errors of eight kinds (BrokenPipe, Interrupted, WouldBlock, ... bare or wrapped in context). An appender may be a whole nested log4rs::Logger, or a foreign log::Log whose enabled() refuses everything while its log() records (attachment and chain alone decide delivery). In 15% of the cases the error handler panics after recording the error: every appender whose chain delivers has been served all the same. Chains may hold the library's ThresholdFilter unwrapped; in 30% of the cases every failing appender fails with the very same std::io::Error. Filters and appender references are attached through a mix of singular and bulk builder calls; in 15% of the cases the error handler of another logger panicked earlier on the thread (caught). non-trivial = >=2 appenders with different verdicts, or a failing appender before a healthy one, or an Accept before a Reject in one chain".into(),
         assumptions: vec!["filters and appenders are harness implementations (plus the real ThresholdFilter)".into()],
         mutants_caught: vec![],
     }
